@@ -140,3 +140,47 @@ def queue_probe(rng, n=40):
         q._putsocket.close()
         q._getsocket.close()
     return None
+
+
+def queue_backlog_probe(n=700, stall=0.25):
+    """the real Queue under a backlog: a producer thread puts n items while the consumer is not looking (as the reactor does
+    while it is parked on a full TCP socket), then the consumer drains it the way Reactor._select does - only while the queue is
+    select()-readable.  Every item must come out, in order: a wake-up that is lost leaves items nobody will ever fetch."""
+    import threading
+    import time
+    q = Q.Queue()
+    done = threading.Event()
+
+    def producer():
+        try:
+            for i in range(n):
+                q.put_nowait(i)
+        finally:
+            done.set()
+    t = threading.Thread(target=producer, daemon=True)
+    got = []
+    try:
+        t.start()
+        time.sleep(stall)
+        deadline = time.time() + 20
+        while len(got) < n and time.time() < deadline:
+            ready, _, _ = ORIG_SELECT([q], [], [], 1.0)
+            if not ready:
+                if done.is_set():
+                    break
+                continue
+            got.append(q.get_nowait())
+        t.join(5)
+        if got != list(range(len(got))):
+            return 'queue handed items out of order under a backlog: %r' % got[:8]
+        if len(got) < n:
+            ready, _, _ = ORIG_SELECT([q], [], [], 0)
+            return ('queue backlog: %d of %d items were handed over; it still holds %d item(s) (producer finished=%s) but is %sselect()-readable'
+                    % (len(got), n, q.qsize(), done.is_set(), '' if ready else 'not '))
+        return None
+    finally:
+        for sk in (q._putsocket, q._getsocket):
+            try:
+                sk.close()
+            except Exception:
+                pass
